@@ -244,7 +244,7 @@ func Scopes(quick bool) []c01.Scope {
 	// S-single: one ANP, two rules (in both orders across the two directions) x subject x NP x BANP
 	stride := 1
 	if quick {
-		stride = 23 // coprime with the size of every dimension of the rule alphabet: rule 2 runs through all port shapes and peers
+		stride = 47 // coprime with the size of every dimension of the rule alphabet: rule 2 varies in action, peer and port shape together (the full product is the thorough tier)
 	}
 	add("S-single", fw.Full, func(c *fw.Ctx) *wm.World {
 		s := fw.Pick(c, Subjects, "subject")
@@ -293,7 +293,7 @@ func Scopes(quick bool) []c01.Scope {
 		ra := c.Choose(len(rules), "rule A (ingress)")
 		rbStride := 3
 		if quick {
-			rbStride = 29
+			rbStride = 59
 		}
 		rb := rbStride * c.Choose((len(rules)+rbStride-1)/rbStride, "rule B (egress)")
 		swap := c.Choose(2, "priorities: A<B | B<A")
